@@ -44,12 +44,15 @@ NORESULT_MODES = ["exit1_silent", "exit0_silent", "no_output", "empty_output", "
 DAMAGE_MODES = ["trunc_output", "garble_output", "segv_after", "kill_after"]
 UNSTARTABLE = ["tool-missing", "tool-not-executable", "tool-is-directory"]
 POSITIONS = ["1", "2", "all"]
+POSITIONS_DEEP = ["1", "2", "3", "from2", "all"]
 
 OUT = {"id-req-1": "/"}
 
 
 def gen_cases(tier, seed):
     cases = []
+    global POSITIONS
+    POSITIONS = POSITIONS_DEEP if tier == "thorough" else ["1", "2", "all"]
     # verification sites
     for site in ("verify-response", "verify-assertion", "verify-both", "verify-request", "verify-assertion-in-encrypted"):
         for msg in ("valid", "tampered"):
